@@ -273,6 +273,37 @@ func (w *World) footprintChecks() *footprintResult {
 			}
 		}
 		res.checks = append(res.checks, gc)
+		// and one obligation per function that touches the variable, so that a known finding about one accessor
+		// (the generated expandComponents) does not hide another function that starts to write or read it
+		if !gc.ok {
+			byFn := map[string][]string{}
+			fpos := map[string]string{}
+			add := func(fs []finding, what func(finding) string) {
+				for _, f := range fs {
+					k := shortFn(f.fn)
+					byFn[k] = append(byFn[k], fmt.Sprintf("%s (%s)", what(f), pos(f)))
+					if fpos[k] == "" {
+						fpos[k] = pos(f)
+					}
+				}
+			}
+			add(writes[n], func(f finding) string { return f.msg })
+			add(mutReads[n], func(f finding) string { return "read of a variable written outside init" })
+			add(escapes[n], func(f finding) string { return f.msg })
+			var fns []string
+			for k := range byFn {
+				fns = append(fns, k)
+			}
+			sort.Strings(fns)
+			for _, k := range fns {
+				ws := byFn[k]
+				if len(ws) > 4 {
+					ws = append(ws[:4], fmt.Sprintf("... %d more", len(ws)-4))
+				}
+				res.checks = append(res.checks, groundCheck{name: "frame." + n + "@" + k, ok: false, pos: fpos[k],
+					why: "package-level variable " + n + " is in the footprint of the decode/encode paths through " + k + ": " + strings.Join(ws, "; ")})
+			}
+		}
 	}
 	// the element types of the immutable profile tables are never written outside init: a store through a
 	// pointer taken from a table is a write to shared state even though no package-level variable is named
